@@ -564,6 +564,9 @@ func (am *AccountingManager) queuePendingRecord(req *AcctRequest) {
 	am.pendingMu.Lock()
 	am.pendingRecords[record.ID] = record
 	atomic.StoreUint64(&am.pendingQueueDepth, uint64(len(am.pendingRecords)))
+	// The queue must survive a crash: callers drop their own durable state
+	// (the session file) as soon as the record is queued.
+	am.persistPendingRecord(record)
 	am.pendingMu.Unlock()
 
 	select {
@@ -610,6 +613,7 @@ func (am *AccountingManager) processPendingRecord(record *PendingAcctRecord) {
 		am.pendingMu.Lock()
 		delete(am.pendingRecords, record.ID)
 		atomic.StoreUint64(&am.pendingQueueDepth, uint64(len(am.pendingRecords)))
+		am.removePendingRecordFile(record.ID)
 		am.pendingMu.Unlock()
 
 		switch record.Request.StatusType {
@@ -630,6 +634,7 @@ func (am *AccountingManager) processPendingRecord(record *PendingAcctRecord) {
 		// Abandon record after max retries
 		delete(am.pendingRecords, record.ID)
 		atomic.StoreUint64(&am.pendingQueueDepth, uint64(len(am.pendingRecords)))
+		am.removePendingRecordFile(record.ID)
 		am.pendingMu.Unlock()
 
 		if record.Request.StatusType == AcctStatusStop {
@@ -653,6 +658,7 @@ func (am *AccountingManager) processPendingRecord(record *PendingAcctRecord) {
 	if record.Request.StatusType == AcctStatusStop {
 		atomic.AddUint64(&am.stopRetries, 1)
 	}
+	am.persistPendingRecord(record) // keep retry count and schedule across a restart
 	am.pendingMu.Unlock()
 
 	am.logger.Debug("Accounting record retry scheduled",
@@ -793,6 +799,78 @@ func (am *AccountingManager) removePersistedSession(sessionID string) {
 	os.Remove(path)
 }
 
+// pendingRecordPath is the file that keeps one queued record across a crash
+func (am *AccountingManager) pendingRecordPath(id string) string {
+	return filepath.Join(am.persistPath, "pending", id+".json")
+}
+
+// persistPendingRecord writes one queued record to disk (write + rename, so
+// a reader never sees half a file). Callers hold pendingMu.
+func (am *AccountingManager) persistPendingRecord(record *PendingAcctRecord) {
+	path := am.pendingRecordPath(record.ID)
+	if err := os.MkdirAll(filepath.Dir(path), 0755); err != nil {
+		am.logger.Warn("Failed to create pending record directory", zap.Error(err))
+		return
+	}
+	data, err := json.Marshal(record)
+	if err != nil {
+		am.logger.Warn("Failed to marshal pending record", zap.Error(err))
+		return
+	}
+	tmp := path + ".tmp"
+	if err := os.WriteFile(tmp, data, 0600); err != nil {
+		am.logger.Warn("Failed to persist pending record", zap.Error(err))
+		return
+	}
+	if err := os.Rename(tmp, path); err != nil {
+		am.logger.Warn("Failed to persist pending record", zap.Error(err))
+	}
+}
+
+// removePendingRecordFile forgets a record that was delivered or abandoned
+func (am *AccountingManager) removePendingRecordFile(id string) {
+	os.Remove(am.pendingRecordPath(id))
+}
+
+// recoverPendingRecordFiles loads the records a previous instance had queued
+func (am *AccountingManager) recoverPendingRecordFiles() {
+	dir := filepath.Join(am.persistPath, "pending")
+	entries, err := os.ReadDir(dir)
+	if err != nil {
+		return
+	}
+	count := 0
+	for _, entry := range entries {
+		if entry.IsDir() || filepath.Ext(entry.Name()) != ".json" {
+			continue
+		}
+		path := filepath.Join(dir, entry.Name())
+		data, err := os.ReadFile(path)
+		if err != nil {
+			continue
+		}
+		var record PendingAcctRecord
+		if err := json.Unmarshal(data, &record); err != nil || record.Request == nil || record.ID == "" {
+			os.Remove(path) // Remove corrupt file
+			continue
+		}
+		am.pendingMu.Lock()
+		if _, known := am.pendingRecords[record.ID]; !known {
+			am.pendingRecords[record.ID] = &record
+			select {
+			case am.pendingQueue <- &record:
+			default:
+			}
+			count++
+		}
+		atomic.StoreUint64(&am.pendingQueueDepth, uint64(len(am.pendingRecords)))
+		am.pendingMu.Unlock()
+	}
+	if count > 0 {
+		am.logger.Info("Recovered queued accounting records", zap.Int("count", count))
+	}
+}
+
 // persistPendingRecords persists pending records to disk
 func (am *AccountingManager) persistPendingRecords() error {
 	am.pendingMu.RLock()
@@ -888,6 +966,7 @@ func (am *AccountingManager) recoverOrphanedSessions() error {
 	}
 
 	// Recover pending records
+	am.recoverPendingRecordFiles()
 	pendingPath := filepath.Join(am.persistPath, "pending.json")
 	data, err := os.ReadFile(pendingPath)
 	if err != nil {
@@ -904,7 +983,12 @@ func (am *AccountingManager) recoverOrphanedSessions() error {
 
 	am.pendingMu.Lock()
 	for id, record := range records {
+		if _, known := am.pendingRecords[id]; known || record == nil || record.Request == nil {
+			continue
+		}
+		record.ID = id
 		am.pendingRecords[id] = record
+		am.persistPendingRecord(record) // pending.json is removed below
 		select {
 		case am.pendingQueue <- record:
 		default:
